@@ -76,6 +76,8 @@ struct Scen {
 	other_commit: Option<Txid>,
 	/// transactions the node under test had broadcast before the snapshot was taken
 	seed_txs: Vec<Transaction>,
+	/// dep[r] = the role whose output role r spends (0: an output of the starting state)
+	dep: [usize; 5],
 }
 
 fn snapshot(node: &N) -> (Vec<u8>, Vec<Vec<u8>>) {
@@ -157,7 +159,7 @@ fn prep_fund(name: &str, nut: usize) -> Scen {
 		txs: vec![None, Some(tx), Some(theirs[0].clone()), None, Some(ours[0].clone())],
 		funding_txid, chan_id, hashes: vec![], failtrig: vec![], minh2: 0, funding_role: true, base_conf: 0,
 		kinds: vec!["", "funding", "counterparty_commitment", "", "holder_commitment"],
-		other_commit: None, seed_txs: vec![], min_depth: 3, tl_outs: vec![], tl_height: 0, late: false, holder: false, pre_in1: None,
+		other_commit: None, seed_txs: vec![], dep: [0, 0, 1, 1, 1], min_depth: 3, tl_outs: vec![], tl_height: 0, late: false, holder: false, pre_in1: None,
 	}
 }
 
@@ -223,7 +225,7 @@ fn prep_open(name: &str, holder: bool, force_close: bool, late: bool) -> Scen {
 		name: name.to_string(), nut, nodes, mgr_bytes, mon_bytes, base_blocks, ucfg, txs: vec![],
 		funding_txid, chan_id, hashes: vec![hash_out1, hash_out2, hash_in1, hash_out3], failtrig: if holder { vec![2, 1, 0, 0] } else { vec![2, 1, 0, 2] },
 		minh2: EXP + 1, funding_role: false, base_conf, kinds: vec![],
-		other_commit: Some(if holder { theirs[0].compute_txid() } else { ours[0].compute_txid() }), seed_txs, min_depth: 6, tl_outs: vec![], tl_height: EXP, late, holder, pre_in1: Some(pre_in1),
+		other_commit: Some(if holder { theirs[0].compute_txid() } else { ours[0].compute_txid() }), seed_txs, dep: [0, 0, 1, 1, 1], min_depth: 6, tl_outs: vec![], tl_height: EXP, late, holder, pre_in1: Some(pre_in1),
 	};
 	if holder {
 		txs[1] = Some(ours[0].clone());
@@ -290,6 +292,64 @@ fn prep_open(name: &str, holder: bool, force_close: bool, late: bool) -> Scen {
 	s
 }
 
+/// Channel open, no HTLC pending any more, but the counterparty holds a REVOKED commitment transaction
+/// with an HTLC it had offered, and the second-stage HTLC-timeout transaction spending it.  The roles
+/// form a dependency chain: 1 = the revoked commitment, 2 = the counterparty's HTLC-timeout
+/// transaction (spends 1), 3 = the node's justice transaction on the output of 2 (spends 2), 4 = the
+/// node's justice transaction on the commitment's HTLC output (spends 1; conflicts with 2).
+fn prep_revoked(name: &str) -> Scen {
+	let nut = 0usize;
+	let nodes = mk_net("static", 6);
+	let (_, _, chan_id, ftx) = create_announced_chan_between_nodes_with_value(&nodes, 0, 1, 1_000_000, 400_000_000);
+	let funding_txid = ftx.compute_txid();
+	let (pre, hash, ..) = route_payment(&nodes[1], &[&nodes[0]], 3_000_000);
+	let revoked = local_txn(&nodes[1], chan_id);
+	assert_eq!(revoked.len(), 2);
+	claim_payment(&nodes[1], &[&nodes[0]], pre);
+	quiet(&nodes[0]);
+	quiet(&nodes[1]);
+	let ours = local_txn(&nodes[0], chan_id);
+	let expiry = revoked[1].lock_time.to_consensus_u32();
+	// only the node under test sees these blocks: the HTLC-timeout transaction is valid from the next block on
+	connect_blocks(&nodes[0], expiry - nodes[0].best_block_info().1);
+	quiet(&nodes[0]);
+	let base_conf = nodes[0].node.list_channels().first().and_then(|c| c.confirmations).unwrap_or(0);
+	let (mgr_bytes, mon_bytes) = snapshot(&nodes[0]);
+	let base_blocks = nodes[0].blocks.lock().unwrap().clone();
+	let ucfg = nodes[0].node.get_current_config();
+	let mut s = Scen {
+		name: name.to_string(), nut, nodes, mgr_bytes, mon_bytes, base_blocks, ucfg, txs: vec![],
+		funding_txid, chan_id, hashes: vec![hash], failtrig: vec![0],
+		minh2: 1, funding_role: false, base_conf,
+		kinds: vec!["", "revoked_counterparty_commitment", "revoked_counterparty_htlc_timeout", "justice_on_htlc_tx", "justice_on_commitment_htlc_output"],
+		other_commit: Some(ours[0].compute_txid()), seed_txs: vec![], dep: [0, 0, 1, 2, 1], min_depth: 6, tl_outs: vec![], tl_height: 0,
+		late: false, holder: false, pre_in1: None,
+	};
+	// rehearsal on a throw-away clone: the justice transactions of the node under test
+	let (mb, nb, uc) = (s.mgr_bytes.clone(), s.mon_bytes.clone(), s.ucfg.clone());
+	restore(&mut s.nodes[0], &uc, &mb, &nb);
+	s.nodes[0].tx_broadcaster.clear();
+	let mut txs: Vec<Option<Transaction>> = vec![None, Some(revoked[0].clone()), Some(revoked[1].clone()), None, None];
+	let htlc_out = revoked[1].input[0].previous_output;
+	let b1 = create_dummy_block(s.nodes[0].best_block_hash(), 1000, vec![revoked[0].clone()]);
+	connect_block(&s.nodes[0], &b1);
+	for t in s.nodes[0].tx_broadcaster.txn_broadcast() {
+		if t.input.iter().any(|i| i.previous_output == htlc_out) { txs[4] = Some(t); }
+	}
+	let b2 = create_dummy_block(b1.block_hash(), 1001, vec![revoked[1].clone()]);
+	connect_block(&s.nodes[0], &b2);
+	let htlc_txid = revoked[1].compute_txid();
+	for t in s.nodes[0].tx_broadcaster.txn_broadcast() {
+		if t.input.len() == 1 && t.input[0].previous_output.txid == htlc_txid { txs[3] = Some(t); }
+	}
+	assert!(txs[3].is_some() && txs[4].is_some());
+	let _ = s.nodes[0].node.get_and_clear_pending_events();
+	let _ = s.nodes[0].node.get_and_clear_pending_msg_events();
+	*s.nodes[0].blocks.lock().unwrap() = s.base_blocks.clone();
+	s.txs = txs;
+	s
+}
+
 fn prepare(name: &str) -> Scen {
 	match name {
 		"fund_a" => prep_fund(name, 0),
@@ -300,16 +360,17 @@ fn prepare(name: &str) -> Scen {
 		"fc_holder" => prep_open(name, true, true, false),
 		"late_cp" => prep_open(name, false, false, true),
 		"late_holder" => prep_open(name, true, false, true),
+		"revoked_cp" => prep_revoked(name),
 		_ => panic!("unknown scenario {}", name),
 	}
 }
 
-const SCENARIOS: [&str; 8] = ["fund_a", "fund_b", "open_cp", "open_holder", "fc_cp", "fc_holder", "late_cp", "late_holder"];
+const SCENARIOS: [&str; 9] = ["fund_a", "fund_b", "open_cp", "open_holder", "fc_cp", "fc_holder", "late_cp", "late_holder", "revoked_cp"];
 
 impl Scen {
 	fn describe(&self) -> Value {
 		json!({"name": self.name, "nut": self.nut, "roles": (1..5).map(|r| self.txs[r].is_some()).collect::<Vec<_>>(),
-			"kinds": self.kinds, "late": self.late, "minh2": self.minh2, "minh": (1..5).map(|r| self.minh(r)).collect::<Vec<_>>(), "funding_role": self.funding_role, "failtrig": self.failtrig,
+			"kinds": self.kinds, "dep": self.dep[1..].to_vec(), "late": self.late, "minh2": self.minh2, "minh": (1..5).map(|r| self.minh(r)).collect::<Vec<_>>(), "funding_role": self.funding_role, "failtrig": self.failtrig,
 			"base_height": self.base_blocks.last().unwrap().1,
 			"locktimes": (1..5).map(|r| self.txs[r].as_ref().map(|t| t.lock_time.to_consensus_u32()).unwrap_or(0)).collect::<Vec<_>>()})
 	}
@@ -384,8 +445,8 @@ impl<'a> Run<'a> {
 		for (k, p) in parents.iter().enumerate() {
 			let id = k + 1;
 			let p = p.as_u64().unwrap() as usize;
-			let mut roles: Vec<usize> = script["txs"][k].as_array().unwrap().iter().map(|x| x.as_u64().unwrap() as usize).collect();
-			roles.sort();
+			// block-internal order as given by the script (the trace specification requires it to be topological)
+			let roles: Vec<usize> = script["txs"][k].as_array().unwrap().iter().map(|x| x.as_u64().unwrap() as usize).collect();
 			let height = blks[p].height + 1;
 			let mut txdata = vec![filler(id)];
 			for r in roles.iter() {
@@ -425,6 +486,7 @@ impl<'a> Run<'a> {
 		99
 	}
 
+	/// (position in block, transaction) of the selected roles, in block order
 	fn txdata<'b>(&self, blk: &'b Blk, sel: Option<&Vec<usize>>) -> Vec<(usize, &'b Transaction)> {
 		let mut v = Vec::new();
 		for (pos, r) in blk.roles.iter().enumerate() {
@@ -433,6 +495,12 @@ impl<'a> Run<'a> {
 			}
 		}
 		v
+	}
+
+	/// generation of a role within its block: 0 if the transaction it spends is not in the block
+	fn generation(&self, blk: &Blk, r: usize) -> usize {
+		let d = self.s.dep[r];
+		if d != 0 && blk.roles.contains(&d) { self.generation(blk, d) + 1 } else { 0 }
 	}
 
 	fn set_blocks(&self, chain: &Vec<usize>) {
@@ -466,12 +534,14 @@ impl<'a> Run<'a> {
 					},
 					"split" => {
 						// a filtering client: first the transactions it was already watching for, then
-						// (immediately, same block) those matching the outputs registered meanwhile
-						let first: Vec<usize> = blk.roles.iter().cloned().filter(|r| *r == 1 || !blk.roles.contains(&1)).collect();
-						let rest: Vec<usize> = blk.roles.iter().cloned().filter(|r| !first.contains(r)).collect();
-						let (d1, d2) = (self.txdata(blk, Some(&first)), self.txdata(blk, Some(&rest)));
-						if mon { cm.filtered_block_connected(hdr, &d1, h); cm.filtered_block_connected(hdr, &d2, h) }
-						else { mgr.filtered_block_connected(hdr, &d1, h); mgr.filtered_block_connected(hdr, &d2, h) }
+						// (immediately, same block) those matching the outputs registered meanwhile, and
+						// so on generation by generation of in-block descendants
+						let maxg = blk.roles.iter().map(|r| self.generation(blk, *r)).max().unwrap_or(0);
+						for g in 0..=maxg.max(1) {
+							let part: Vec<usize> = blk.roles.iter().cloned().filter(|r| self.generation(blk, *r) == g).collect();
+							let d = self.txdata(blk, Some(&part));
+							if mon { cm.filtered_block_connected(hdr, &d, h) } else { mgr.filtered_block_connected(hdr, &d, h) }
+						}
 					},
 					_ => panic!("bad conn mode"),
 				}
@@ -637,12 +707,18 @@ impl<'a> Run<'a> {
 		claims.sort();
 		claims.dedup();
 		let mut bal = Vec::new();
+		// balances that exist only as long as the monitor's claim on a revoked output is pending
+		let mut balc: Vec<String> = Vec::new();
 		let mut open_bal = false;
 		let mut otw = 0usize;
 		let mut mbest = (99i64, 0i64);
 		for id in cm.list_monitors() {
 			let m = cm.get_monitor(id).unwrap();
 			for b in m.get_claimable_balances() {
+				if let Balance::CounterpartyRevokedOutputClaimable { amount_satoshis } = b {
+					balc.push(format!("Revoked:{}", amount_satoshis));
+					continue;
+				}
 				bal.push(match b {
 					Balance::ClaimableOnChannelClose { balance_candidates, confirmed_balance_candidate_index, outbound_payment_htlc_rounded_msat, outbound_forwarded_htlc_rounded_msat, inbound_claiming_htlc_rounded_msat, inbound_htlc_rounded_msat } => {
 						open_bal = true;
@@ -661,6 +737,7 @@ impl<'a> Run<'a> {
 			mbest = (self.blk_of_hash(&bb.block_hash), bb.height as i64 - base_h);
 		}
 		bal.sort();
+		balc.sort();
 		let rel_fmt = |rel: Vec<(Txid, u32, Option<BlockHash>)>| -> (Vec<String>, Vec<Value>) {
 			let mut a = Vec::new();
 			for (txid, h, bh) in rel {
@@ -691,7 +768,7 @@ impl<'a> Run<'a> {
 		let irrev = std::mem::take(&mut self.irrev);
 		let bcast: Vec<Vec<(usize, u32)>> = self.bcast.iter().cloned().collect();
 		self.log.push(json!({"ev":"sync","idx":idx,"tip":tip,"key":key,
-			"R":{"bal":bal,"mrel":mrel_s,"claims":claims,"chans":chans,"grel":grel_s},
+			"R":{"bal":bal,"balc":balc,"mrel":mrel_s,"claims":claims,"chans":chans,"grel":grel_s},
 			"S":{"evs":evs,"msgs":msgs,"bcast":bcast,"otw":otw},
 			"f":{"mbest":mbest.0,"mbest_h":mbest.1,"gbest":gbest.0,"gbest_h":gbest.1,"conf":conf,"open_bal":open_bal,
 				"mrel":mrel_f,"grel":grel_f,"irrev":irrev}}));
@@ -808,7 +885,7 @@ fn main() {
 		let mut log: Vec<Value> = Vec::new();
 		log.push(json!({"ev":"reset","kind":sc["kind"],"hist":sc["hist"],"scen":name,"parent":sc["parent"],"txs":sc["txs"],
 			"targets":sc["targets"],"order":sc["order"],"ard":consts.anti_reorg_delay,"minh":(1..5).map(|r| scen.minh(r)).collect::<Vec<_>>(),
-			"funding_role":scen.funding_role,"failtrig":scen.failtrig,"base_conf":scen.base_conf,"min_depth":scen.min_depth,"tl_height":scen.tl_height,"late":scen.late,"holder":scen.holder,
+			"funding_role":scen.funding_role,"failtrig":scen.failtrig,"base_conf":scen.base_conf,"min_depth":scen.min_depth,"tl_height":scen.tl_height,"late":scen.late,"holder":scen.holder,"dep":scen.dep[1..].to_vec(),
 			"in1_out": scen.txs[3].as_ref().filter(|_| scen.pre_in1.is_some()).map(|t| vec![json!([scen.tx_idx(&t.input[0].previous_output.txid), t.input[0].previous_output.vout])]).unwrap_or_default(),
 			"claims_at": sc["trans"].as_array().map(|t| t.iter().map(|x| x["claim"].as_bool().unwrap_or(false)).collect::<Vec<_>>()).unwrap_or_default(),
 			"tl_outs":scen.tl_outs.iter().map(|o| json!([scen.tx_idx(&o.txid), o.vout])).collect::<Vec<_>>(),
